@@ -694,6 +694,14 @@ func (ex *Exec) doCall(fr *frame, st *State, cc *ssa.CallCommon, fnv Val, args [
 				}
 			}
 		}
+		if callee == nil && cc.Value != nil && !cc.IsInvoke() {
+			// calling a nil function value panics
+			if fv, ok := st.vals[cc.Value]; ok {
+				if ft, isTerm := fv.(*Term); isTerm && ft.Sort.Kind == SInt {
+					ex.oblige(st, "nopanic.nilfunc", "call of a nil function value", ex.p.Not(ex.p.Eq(ft, ex.p.Int(0))), pos)
+				}
+			}
+		}
 		if callee == nil && cc.Value != nil {
 			// a contract written for every function value of this function type ("interface functype:<sig> (params)")
 			if sig, ok := cc.Value.Type().Underlying().(*types.Signature); ok {
